@@ -17,6 +17,8 @@
 // Joins at control-flow merges take the worse origin, except for the recognised copy-on-write idiom
 //     if !copied { m = m.Copy(); copied = true }
 // FAIL CLOSED: anything else that is written and not classified is an `unknown` fact; `noWriteToInput` is false on it.
+// The same file also receives the statement-by-statement transcription of edge.BatchBuffer (see buffered.go: "what a node
+// has emitted is never written again").
 // Env: VERIF_REPO (default /repo), VERIF_LEAN (default /verif/lean).
 package main
 
@@ -785,7 +787,7 @@ func main() {
 	}
 	// output
 	var b strings.Builder
-	b.WriteString("/- GENERATED by extract/c10alias from the Go source of the C10 node files. Do not edit. -/\nimport Kap.Model.C10Alias\nnamespace Kap.Gen.C10\nopen Kap.C10.Alias\n\n")
+	b.WriteString("/- GENERATED by extract/c10alias from the Go source of the C10 node files. Do not edit. -/\nimport Kap.Model.C10Alias\nimport Kap.Model.C10Buf\nnamespace Kap.Gen.C10\nopen Kap.C10.Alias\n\n")
 	b.WriteString("/-- functions: id = position -/\ndef funcs : List String := [\n")
 	for i, x := range fns {
 		sep := ","
@@ -810,7 +812,9 @@ func main() {
 			fmt.Fprintf(&b, "  .unknown %d %s%s\n", f.fn, leanStr(f.note), sep)
 		}
 	}
-	b.WriteString("]\n\nend Kap.Gen.C10\n")
+	b.WriteString("]\n")
+	b.WriteString(bufferedLean(repo))
+	b.WriteString("\nend Kap.Gen.C10\n")
 	out := filepath.Join(leanDir, "Kap", "Gen", "C10.lean")
 	os.MkdirAll(filepath.Dir(out), 0o755)
 	if old, err := os.ReadFile(out); err == nil && string(old) == b.String() {
